@@ -9,6 +9,77 @@ use std::collections::HashSet;
 
 pub struct C09;
 
+/// World scripts (real Server and Clients), or the mechanism behind the flush clause at the level of one connection's
+/// two HalfConnections: disconnect() sends its request once `is_send_pending()` is false, and the peer hands over
+/// what receive() yields before it reports Disconnect - so whenever a sender has nothing pending and none of its
+/// data frames is still travelling, every Reliable packet it accepted must have been handed over.
+#[derive(Clone, Debug, serde::Serialize, serde::Deserialize)]
+#[serde(untagged)]
+pub enum Case {
+    World(WCase),
+    Pair { pair: crate::sim::pair::PairScenario },
+}
+
+fn run_pair(sc: &crate::sim::pair::PairScenario) -> CaseResult {
+    use crate::sim::pair::*;
+    let mut sc = sc.clone();
+    sc.normalize();
+    let mut sim = SimPair::new(&sc);
+    sim.record_stats = false;
+    let mut classes: Vec<&'static str> = vec!["pair"];
+    // identity by the index embedded in payloads of 4 bytes and more (shorter Reliable packets are not judged here;
+    // ordering and duplicates are C01's business)
+    let mut handed: [std::collections::HashSet<u32>; 2] = [Default::default(), Default::default()];
+    let mut seen_delivs = [0usize; 2];
+    let mut moments = 0u32;
+    let mut reliable = 0usize;
+    // judged whenever a sender has nothing pending - the moment disconnect() would send its request - and none of its
+    // data frames is travelling
+    let mut judge = |sim: &SimPair, when: &str| -> Option<CaseResult> {
+        for s in 0..2 {
+            if sim.hc[s].is_send_pending() || sim.data_in_flight_to(1 - s) {
+                continue;
+            }
+            let r = 1 - s;
+            for d in sim.trace.delivs[r][seen_delivs[r]..].iter() {
+                if d.data.len() >= 4 {
+                    handed[s].insert(u32::from_be_bytes([d.data[0], d.data[1], d.data[2], d.data[3]]));
+                }
+            }
+            seen_delivs[r] = sim.trace.delivs[r].len();
+            moments += 1;
+            reliable = reliable.max(sim.trace.subs[s].iter().filter(|sub| sub.mode == 3 && sub.size >= 4).count());
+            if let Some(sub) = sim.trace.subs[s].iter().find(|sub| sub.mode == 3 && sub.size >= 4 && !handed[s].contains(&sub.idx)) {
+                return Some(CaseResult::fail(
+                    "oracle:c09:pair:reliable_not_flushed",
+                    format!("direction {}->{} at t={} us ({when}): the sender has nothing pending (disconnect() would send its request now) and none of its data frames is travelling, yet Reliable submission {} (channel {}, {} bytes, submitted at t={} us) has not been handed to the peer application", s, 1 - s, sim.now_us, sub.idx, sub.ch, sub.size, sub.t_us),
+                ));
+            }
+        }
+        None
+    };
+    for t in sc.ticks.iter() {
+        sim.run_tick(t);
+        if let Some(v) = judge(&sim, "after a tick of the faulty phase") {
+            return v;
+        }
+    }
+    let step_us = sc.tail.as_ref().map(|t| t.step_us as u64).unwrap_or(10_000);
+    let outcome = sim.run_tail_progress(step_us, crate::props::c02::STALL_US, crate::props::c02::CAP_US);
+    if let Some(v) = judge(&sim, "at the end of the fair phase") {
+        return v;
+    }
+    if outcome != TailOutcome::Quiescent {
+        classes.push("pair_not_quiescent");
+    }
+    let trace = sim.finish();
+    let faulted = (0..2).any(|s| trace.wire[s].iter().any(|w| !matches!(w.fate, Fate::Deliver(0))));
+    if moments > 2 {
+        classes.push("pair_judged_at_several_moments");
+    }
+    CaseResult::ok(reliable > 0 && faulted, classes)
+}
+
 fn params(tier: Tier) -> ScriptParams {
     ScriptParams {
         max_clients: tier.pick(2, 4),
@@ -27,13 +98,13 @@ fn params(tier: Tier) -> ScriptParams {
 const RETRY_BUDGET_US: u64 = 22_000_000;
 
 impl Check for C09 {
-    type Case = WCase;
+    type Case = Case;
 
     fn id(&self) -> &'static str {
         "C09"
     }
 
-    fn strategy(&self, tier: Tier) -> BoxedStrategy<WCase> {
+    fn strategy(&self, tier: Tier) -> BoxedStrategy<Case> {
         let p = params(tier);
         // structured shape: connect, exchange, queue a burst, one disconnect() from either side, keep stepping
         let tick = || (prop_oneof![Just(5_000u32), Just(16_000u32), Just(30_000u32), Just(100_000u32)]).prop_map(|dt_us| WOp::Tick { dt_us, server: true, clients: 255 });
@@ -65,7 +136,8 @@ impl Check for C09 {
                 ops.extend(after);
                 WCase { seed, server: ServerCfg { ep: EpCfg { keepalive_interval_ms: 1000, ..EpCfg::default() }, ..ServerCfg::default() }, clients: vec![client], ops, settle_step_us, settle_us: 60_000_000, server_event_limit: None }
             });
-        prop_oneof![1 => wcase_strategy(&p), 2 => structured].boxed()
+        let gp = crate::sim::gen::GenParams { max_ticks: tier.pick(150, 400), max_sends: 6, max_frags: 3, tail: true, modes: [1, 1, 1, 4], stall_weight: 4, ..crate::sim::gen::GenParams::default() };
+        prop_oneof![2 => wcase_strategy(&p).prop_map(Case::World), 4 => structured.prop_map(Case::World), 1 => crate::sim::gen::scenario_strategy(&gp).prop_map(|pair| Case::Pair { pair })].boxed()
     }
 
     fn cases(&self, tier: Tier) -> u64 {
@@ -77,7 +149,7 @@ impl Check for C09 {
     }
 
     fn rule(&self) -> String {
-        "case = World script as in C08 without Server::drop: generated amounts and modes of data queued in both directions when disconnect() / disconnect_now() is called from either side, loss / duplication / reordering of data, ack, disconnect and disconnect-ack frames, blackouts incl. a total one until the end, followed by 60 s of regular stepping. Oracle: (1) if an endpoint's terminal event is Disconnect and it did not itself ask to disconnect, its Receive events before that Disconnect include every Reliable packet the peer submitted (and had accepted) before the peer's first disconnect() call, provided the peer never called disconnect_now(); (2) with t0 the first time the caller's Disconnect frame appears on the wire, the caller reaches a terminal event by t0 + 22 s + 12 x largest step gap (each of the 11 retry intervals is re-armed at the step that serves it), and the peer by max(t0, arrival of the last datagram it received) + max(22 s, its active_timeout_ms) + 12 x largest step gap; (2') a client that asked to disconnect does not end with Error(Timeout) when the server, having reported Disconnect on one of the client's requests, was handed another intact copy of the request within 19 s and put no DisconnectAck on the wire at the step that served it (Timeout is for an unreachable peer), and the same with the roles exchanged; (3) the event streams are well-formed (nothing after a terminal event). Non-trivial = a Reliable packet was still unacknowledged at a disconnect() call and at least one frame was faulted afterwards. Distinct = distinct serialised case.".into()
+        "case = World script as in C08 without Server::drop: generated amounts and modes of data queued in both directions when disconnect() / disconnect_now() is called from either side, loss / duplication / reordering of data, ack, disconnect and disconnect-ack frames, blackouts incl. a total one until the end, followed by 60 s of regular stepping. Oracle: (1) if an endpoint's terminal event is Disconnect and it did not itself ask to disconnect, its Receive events before that Disconnect include every Reliable packet the peer submitted (and had accepted) before the peer's first disconnect() call, provided the peer never called disconnect_now(); (2) with t0 the first time the caller's Disconnect frame appears on the wire, the caller reaches a terminal event by t0 + 22 s + 12 x largest step gap (each of the 11 retry intervals is re-armed at the step that serves it), and the peer by max(t0, arrival of the last datagram it received) + max(22 s, its active_timeout_ms) + 12 x largest step gap; (2') a client that asked to disconnect does not end with Error(Timeout) when the server, having reported Disconnect on one of the client's requests, was handed another intact copy of the request within 19 s and put no DisconnectAck on the wire at the step that served it (Timeout is for an unreachable peer), and the same with the roles exchanged; (3) the event streams are well-formed (nothing after a terminal event). One case in seven instead drives the two HalfConnections of one connection directly (SimPair scenario with faults, tiny to full-size windows, then a fair phase): after every tick and at the end, whenever a sender has nothing pending - the moment disconnect() would send its request - and none of its data frames is travelling, every Reliable packet it accepted so far has been handed to the peer application. Non-trivial = a Reliable packet was still unacknowledged at a disconnect() call and at least one frame was faulted afterwards. Distinct = distinct serialised case.".into()
     }
 
     fn assumptions(&self) -> Vec<String> {
@@ -87,11 +159,15 @@ impl Check for C09 {
         ]
     }
 
-    fn sample(&self, case: &WCase) -> serde_json::Value {
+    fn sample(&self, case: &Case) -> serde_json::Value {
         truncate_value(serde_json::to_value(case).unwrap(), 1)
     }
 
-    fn run(&self, c: &WCase) -> CaseResult {
+    fn run(&self, case: &Case) -> CaseResult {
+        let c = match case {
+            Case::World(c) => c,
+            Case::Pair { pair } => return run_pair(pair),
+        };
         let log = run_script(c);
         let w = &log.world;
         let mut classes = Vec::new();
